@@ -149,6 +149,10 @@ func (c *c06Case) Run(ctx *core.Ctx) {
 			page += inc2
 			hs, ds, fs = append(hs, h2), append(ds, d2), append(fs, f2)
 			titles = append(titles, t2...)
+		case "if-true": // the include tag carries v-if: it still hands its children to the component
+			page = strings.Replace(inc, `<template include="c.vuego">`, `<template include="c.vuego" v-if="v">`, 1)
+		case "else":
+			page = `<u v-if="nothing">n</u>` + strings.Replace(inc, `<template include="c.vuego">`, `<template include="c.vuego" v-else>`, 1)
 		case "empty-first":
 			page = `<template include="c.vuego"></template>` + page
 			hs, ds, fs = append([]string{"FBH"}, hs...), append([]string{"FBD"}, ds...), append([]string{""}, fs...)
@@ -382,7 +386,7 @@ func init() {
 		ID:        "C06",
 		Level:     "exploration",
 		CPUBudget: 10,
-		Rule: "component with header/default/footer slots (fallback on two of them) used by includers supplying every subset in every form (v-slot:, #, plain children, v-slot, v-slot:default) x 4 content kinds (static, {{ }} of an includer variable, :attr, text) x 4 instance arrangements; scoped slots (4 components incl. slot in v-for) x {named var, destructured, fallback, plain}; same slot used twice; nested components (5 arrangements); layout-inherited slots; slot names written with capital letters; components whose prop / front-matter key / loop variable / template variable has the name of the includer's variable that the content reads; " +
+		Rule: "component with header/default/footer slots (fallback on two of them) used by includers supplying every subset in every form (v-slot:, #, plain children, v-slot, v-slot:default) x 4 content kinds (static, {{ }} of an includer variable, :attr, text) x 6 instance arrangements (incl. an include tag carrying v-if / v-else); scoped slots (4 components incl. slot in v-for) x {named var, destructured, fallback, plain}; same slot used twice; nested components (5 arrangements); layout-inherited slots; slot names written with capital letters; components whose prop / front-matter key / loop variable / template variable has the name of the includer's variable that the content reads; " +
 			"every case also right after a render (on another engine) that passes content for all those slot names to a component and through a layout to the components the layout includes; " +
 			"oracle: expected normalised text (and bound attributes) at every slot position. non-trivial = all",
 		Bounds:      map[string]string{"quick": "full catalogue product, nesting depth 2, <=2 instances", "thorough": "same"},
@@ -402,7 +406,7 @@ func init() {
 				for _, d := range []string{"none", "plain", "vslot", "vslotdefault", "hash"} {
 					for _, f := range []string{"none", "vslot", "hash"} {
 						for _, k := range []string{"static", "dyn", "attr", "text"} {
-							for _, inst := range []string{"one", "two-empty", "two-other", "empty-first"} {
+							for _, inst := range []string{"one", "two-empty", "two-other", "empty-first", "if-true", "else"} {
 								emit(&c06Case{Part: "k1", Hdr: h, Def: d, Ftr: f, Kind: k, Inst: inst})
 							}
 						}
